@@ -3,11 +3,13 @@
 package verifharness
 
 import (
+	"context"
 	"fmt"
 	"math/rand"
 	"os"
 	"runtime"
 	"sync"
+	"sync/atomic"
 	"testing"
 	"testing/synctest"
 	"time"
@@ -205,6 +207,117 @@ func lazyRelease(rng *rand.Rand) func(step int, en []syAct) int {
 	}
 }
 
+// syAwait waits for the goroutines of a free-running scenario. It returns true when they can never finish:
+// every goroutine of the bubble is durably blocked or waits for a sync.Mutex (two identical pictures in a row),
+// which is a wedge of the system under test (synctest alone cannot see a wedge that involves a mutex waiter).
+func syAwait(wg *sync.WaitGroup) (wedged bool) {
+	all := make(chan struct{})
+	go func() { wg.Wait(); close(all) }()
+	buf := make([]byte, 4<<20)
+	prev := ""
+	for spins := 0; ; spins++ {
+		select {
+		case <-all:
+			return false
+		default:
+		}
+		if spins%512 == 511 {
+			n := runtime.Stack(buf, true)
+			fp, quiet := syBubbleQuiet(string(buf[:n]))
+			if quiet && fp == prev {
+				return true
+			}
+			if quiet {
+				prev = fp
+			} else {
+				prev = ""
+			}
+		}
+		runtime.Gosched()
+	}
+}
+
+// syQuiesce ends a scenario: synctest.Wait, or - after a wedge, when goroutines may still be waiting for a
+// mutex - the dump-based detection of rest
+func syQuiesce(wedged bool) {
+	if !wedged {
+		synctest.Wait()
+		return
+	}
+	buf := make([]byte, 4<<20)
+	prev := ""
+	for spins := 0; spins < 200000; spins++ {
+		if spins%256 == 255 {
+			n := runtime.Stack(buf, true)
+			fp, quiet := syBubbleQuiet(string(buf[:n]))
+			if quiet && fp == prev {
+				return
+			}
+			if quiet {
+				prev = fp
+			} else {
+				prev = ""
+			}
+		}
+		runtime.Gosched()
+	}
+}
+
+// simultaneous opens: in each of `rounds` rounds n goroutines leave the fail-fast check of NewStreamReadWriter at
+// the same instant (spin barrier at the mux.checked hook) on ONE connection; every stream is half-closed at once
+// and its handler returns nil without reading; the history of each round is one case
+func runC02Opens(t *testing.T, rep, n, rounds int, byRef bool) (epochs [][]string, wedged bool) {
+	old := runtime.GOMAXPROCS(16)
+	defer runtime.GOMAXPROCS(old)
+	bubble(t, func(t *testing.T) {
+		r := newSyRig(0, byRef, false)
+		var arrived, round atomic.Int64
+		r.mu.Lock()
+		r.yieldF = func(pt string) {
+			if pt != "mux.checked" {
+				return
+			}
+			arrived.Add(1)
+			target := (round.Load() + 1) * int64(n)
+			for arrived.Load() < target {
+				runtime.Gosched()
+			}
+		}
+		for k := 0; k < n*rounds; k++ {
+			r.hprogs[int64(k)] = syHProg{J: 0, N: 0}
+		}
+		r.mu.Unlock()
+		for rd := 0; rd < rounds && !wedged; rd++ {
+			m := r.hist.mark()
+			var wg sync.WaitGroup
+			for g := 0; g < n; g++ {
+				wg.Add(1)
+				go func(k int64) {
+					defer wg.Done()
+					ctx, cancel := context.WithTimeout(r.ctx, 10*time.Minute) // virtual time
+					defer cancel()
+					cs, err := r.open(ctx, k, 2)
+					if err != nil {
+						return
+					}
+					r.closeSend(cs, k)
+					for r.recv(cs, k) == nil {
+					}
+				}(int64(rd*n + g))
+			}
+			wedged = syAwait(&wg)
+			if !wedged {
+				synctest.Wait()
+			}
+			round.Add(1)
+			epochs = append(epochs, r.hist.since(m))
+		}
+		r.close()
+		syQuiesce(wedged)
+	})
+	return
+}
+
 func TestC02(t *testing.T) {
 	em := NewEmitter()
 	defer em.Close()
@@ -277,26 +390,34 @@ func TestC02(t *testing.T) {
 						}(ti, prog)
 					}
 				}
-				// virtual clock: the timer fires only when every goroutine of the bubble is blocked (a wedge)
-				all := make(chan struct{})
-				go func() { wg.Wait(); close(all) }()
-				select {
-				case <-all:
-				case <-time.After(time.Hour):
-					wedged = true
-					if os.Getenv("SY_DEBUG") != "" {
-						fmt.Fprintf(os.Stderr, "WEDGED free-running scenario %d/%d: %v\n%s\n", fi, rep, streams, goroutineDump())
-					}
+				wedged = syAwait(&wg)
+				if wedged && os.Getenv("SY_DEBUG") != "" {
+					fmt.Fprintf(os.Stderr, "WEDGED free-running scenario %d/%d: %v\n%s\n", fi, rep, streams, goroutineDump())
 				}
-				synctest.Wait()
+				if !wedged {
+					synctest.Wait()
+				}
 				evs = r.hist.since(0)
 				r.close()
-				synctest.Wait()
+				syQuiesce(wedged)
 			})
 			runtime.GOMAXPROCS(old)
 			// complete unless an operation is still blocked: wg.Wait returned, so every caller-side operation returned;
 			// handlers that never returned leave their receive open (judged by code 7)
 			sp.big = append(sp.big, recC02("c02-free", cfg, streams, []syStep{{syAct{'F', 0}, evs}}, true, "mode:free-running", fmt.Sprintf("procs=%d", fc.procs), fmt.Sprintf("wedged=%v", wedged)))
+		}
+	}
+	// simultaneous opens (id allocation of streams)
+	nopens := 8
+	if thorough() {
+		nopens = 30
+	}
+	for rep := 0; rep < nopens; rep++ {
+		epochs, wedged := runC02Opens(t, rep, 64, 20, rep%2 == 1)
+		cfg := c02Cfg{0, rep%2 == 1}
+		for _, evs := range epochs {
+			rec := recC02("c02-opens", cfg, nil, []syStep{{syAct{'F', 0}, evs}}, true, "mode:simultaneous-opens", fmt.Sprintf("wedged=%v", wedged))
+			sp.big = append(sp.big, rec)
 		}
 	}
 	em.Marker("end", 0)
